@@ -1,5 +1,6 @@
 import LokiModel.Sexp
 import LokiModel.C43.Model
+import LokiModel.Generated.C43Tables
 open LokiModel.C43 Sexp
 
 def s (l : Line) : Sexp := str (String.ofList l)
@@ -38,14 +39,22 @@ def step : Sexp → Option Sexp
   | list (atom "detect" :: str body :: nodes) => do
       let ns ← mapM' decNode nodes
       let b := body.toList
-      let kn := list [atom "known", ofBool (KnownNonLower b), ofBool (KnownLiteral b), ofBool (KnownUnparsed b),
+      let kn := list [atom "known", ofBool (KnownLiteral b), ofBool (KnownUnparsed b),
                       ofBool (KnownMixed ns), ofBool (KnownSeveral ns), ofBool (KnownSpan ns)]
       match detect ns with
       | none => pure (list [atom "error", atom "indexerror"])
       | some rs =>
+        let text := (LokiModel.Generated.C43.frameHead ++ body ++ LokiModel.Generated.C43.frameTail).toList
+        let rr := reportedRanges ns rs
+        let fk := [KnownHeaderContinued text, KnownTrailingComment text, KnownNestedReport rr,
+                   KnownDoubleQuote ns rs, KnownEnclosingDo text rr]
+        let fixS := match fixOutcome rs with
+          | .untouched => list [atom "fix", atom "untouched"]
+          | .ran => if fk.any id || KnownUnparsed b then list [atom "fix", atom "ran", atom "known"]
+                    else list [atom "fix", atom "ran", s (fixedSquash text ns rs)]
         pure (list [atom "ok",
           list (atom "reports" :: rs.map fun r => list [atom "r", s r.op.sym, s r.f77, ofNat r.line]),
-          list [atom "fix", atom (match fixOutcome rs with | .raises => "raises" | .untouched => "untouched")], kn])
+          fixS, kn, list (atom "fixknown" :: fk.map ofBool)])
   | list [atom "spec", str t] =>
       let l := t.toList
       pure (list [atom "ok",
